@@ -3827,10 +3827,14 @@ def pull(
             assert isinstance(old_commit, Commit)
             old_tree_id = old_commit.tree
         except KeyError:
+            old_head = None
             old_tree_id = None
 
         merged = False
+        updated_refs: set[bytes] = set()
         for lh, rh, force_ref in selected_refs:
+            # value of rh the fast-forward check was made against, if any
+            checked_value = None
             if not force_ref and rh is not None and rh in r.refs:
                 try:
                     assert lh is not None
@@ -3839,6 +3843,7 @@ def pull(
                     lh_ref = fetch_result.refs[lh]
                     assert lh_ref is not None
                     check_diverged(r, followed_ref, lh_ref)
+                    checked_value = followed_ref
                 except DivergedBranches as exc:
                     if ff_only or fast_forward:
                         raise
@@ -3858,7 +3863,16 @@ def pull(
             if rh is not None and lh is not None:
                 lh_value = fetch_result.refs[lh]
                 if lh_value is not None:
-                    r.refs[Ref(rh)] = lh_value
+                    if checked_value is not None:
+                        # Fast-forward only from the value that was checked:
+                        # a commit made meanwhile must not be dropped.
+                        if not r.refs.set_if_equals(Ref(rh), checked_value, lh_value):
+                            raise Error(
+                                f"{rh.decode('utf-8', 'replace')} changed during pull"
+                            )
+                    else:
+                        r.refs[Ref(rh)] = lh_value
+                    updated_refs.add(rh)
 
         # Only update HEAD if we didn't perform a merge
         if selected_refs and not merged:
@@ -3866,7 +3880,20 @@ def pull(
             if lh is not None:
                 ref_value = fetch_result.refs[lh]
                 if ref_value is not None:
-                    r[b"HEAD"] = ref_value
+                    try:
+                        head_target = r.refs.follow(HEADREF)[0][-1]
+                    except (KeyError, IndexError):
+                        head_target = HEADREF
+                    # Usually the loop above has moved the current branch
+                    # already (and somebody may have committed on top of it
+                    # since); otherwise move HEAD from where it was, not
+                    # unconditionally.
+                    if (
+                        head_target not in updated_refs
+                        and HEADREF not in updated_refs
+                        and not r.refs.set_if_equals(HEADREF, old_head, ref_value)
+                    ):
+                        raise Error("HEAD changed during pull")
 
         # Update working tree to match the new HEAD
         # Skip if merge was performed as merge already updates the working tree
